@@ -971,6 +971,13 @@ func (p *Parser) Parse() (Statement, error) {
 			return selectStmt, err
 		}
 	}
+	// The types recorded while the select list was parsed predate the
+	// resolution of field names
+	for i := range selectStmt.FieldTypes {
+		if i < len(selectStmt.Fields) {
+			selectStmt.FieldTypes[i] = selectStmt.Fields[i].ReturnType()
+		}
+	}
 	err = expr.Check(checkCtx)
 	if err != nil {
 		return nil, err
